@@ -168,9 +168,16 @@ def run(ctx):
             chk.bad(R2, VPK, f'{label} comparison', f'the recomputed {label} is not compared with the recorded one for every row (or a mismatch is not recorded)', where=f'{p.module.relpath}:{rl.lineno}')
     ov = None
     for n in rl.body:
-        if isinstance(n, ast.If) and isinstance(n.test, ast.Compare) and norm(n.test.left) == var_of['offset'] and isinstance(n.test.ops[0], ast.Lt):
-            ov = n
-    pos_updates = [n for n in rl.body if isinstance(n, ast.Assign) and ov is not None and norm(n.targets[0]) == norm(ov.test.comparators[0])]
+        if isinstance(n, ast.If) and isinstance(n.test, ast.Compare) and len(n.test.ops) == 1:
+            # `offset < end` or the mirrored `end > offset`: bring it to the first form
+            t = n.test
+            if norm(t.left) == var_of['offset'] and isinstance(t.ops[0], ast.Lt):
+                ov = n
+                ov_end = t.comparators[0]
+            elif norm(t.comparators[0]) == var_of['offset'] and isinstance(t.ops[0], ast.Gt):
+                ov = n
+                ov_end = t.left
+    pos_updates = [n for n in rl.body if isinstance(n, ast.Assign) and ov is not None and norm(n.targets[0]) == norm(ov_end)]
     okov = ov is not None and pos_updates and norm(pos_updates[0].value).replace(' ', '') in (f"{var_of['offset']}+{var_of['length']}", f"{var_of['length']}+{var_of['offset']}") \
         and any(isinstance(c, ast.Call) and isinstance(c.func, ast.Attribute) and c.func.attr == 'append' for c in ast.walk(ov)) and rl.body.index(pos_updates[0]) > rl.body.index(ov)
     if okov:
